@@ -10,10 +10,20 @@ Line protocol (after the property id):
       nseed = 0 means a 1-d seed (one channel, result squeezed)
   dense <NFFT> <noverlap|dfunc> <Fs> <win> <lb> <ub> <ij> <chan0> …    (coherency through welchBin + coherencySpec,
       restricted to the band the dense frequency grid selects; used to run the refinement on concrete inputs)
+  outhist <cache_to_psd|cache_to_phase|cache_to_relative_phase|cache_to_coherency> <shape key>:<value id> …
+      a history of queries of ONE cache whose results the caller keeps; the output array is kept with the cache or allocated
+      per call as `Generated.CacheOut` says of the current source; answer: `<array id>=<value id it holds at the END>` per query
+  sess <user Fs p/q|none> <rate0 p/q> <ev> …   SparseCoherenceAnalyzer session, `set_input` body = `Generated.SetInput.sparse`:
+      `s<rate p/q>:<refused 0|1>:<series id>`, `f` (read a result computed with method['Fs']), `r` reset();
+      answer per read: `<id of the series held>@<the rate used, p/q>`
 -/
 import Nitime.Model.CohBase
 import Nitime.Model.C09Win
 import Nitime.Generated.CacheWin
+import Nitime.Model.C09Out
+import Nitime.Generated.CacheOut
+import Nitime.Model.CohSession
+import Nitime.Generated.SetInput
 
 namespace Nitime.C09
 open Nitime.Coh Nitime.Coh.CScalar
@@ -179,8 +189,67 @@ def handleGrid (args : List String) : Option String := do
       showRe ((List.range (nFreq N)).map fun k => rfftFreq (Cx.ofF Fs) N k)
   | _ => none
 
+def parseRat? (s : String) : Option Rat :=
+  match s.splitOn "/" with
+  | [a] => a.toInt?.map fun n => (n : Rat)
+  | [a, b] => match a.toInt?, b.toNat? with
+    | some n, some d => if d = 0 then none else some ((n : Rat) / (d : Rat))
+    | _, _ => none
+  | _ => none
+
+def showRat (q : Rat) : String := if q.den = 1 then toString q.num else toString q.num ++ "/" ++ toString q.den
+
+def handleOutHist (args : List String) : String :=
+  match args with
+  | fn :: qs =>
+    match Nitime.Generated.CacheOut.table.lookup fn with
+    | none => "no-such-function"
+    | some o =>
+      if o.alloc == .unknown then "unsupported" else
+      let keep := !(o.alloc == .fresh && !o.writesCache && o.entriesNew)
+      let cs : Option (List Out.Call) := qs.mapM fun q =>
+        match q.splitOn ":" with
+        | [a, b] => match a.toNat?, b.toInt? with
+          | some a, some b => some ⟨a, [b]⟩
+          | _, _ => none
+        | _ => none
+      match cs with
+      | none => "bad-args"
+      | some cs =>
+        let s := Out.run keep Out.init cs
+        " ".intercalate ((Out.ids s).zip (Out.finalViews s) |>.map fun (i, v) => toString i ++ "=" ++ toString (v.headD (-1)))
+  | _ => "bad-args"
+
+def parseSessEvs : List String → Option (List CohSession.Ev)
+  | [] => some []
+  | t :: r =>
+    if t = "f" then (parseSessEvs r).map (.readFreq :: ·)
+    else if t = "r" then (parseSessEvs r).map (.reset :: ·)
+    else if t.startsWith "s" then
+      match (t.drop 1).toString.splitOn ":" with
+      | [q, b, k] =>
+        match parseRat? q, k.toNat?, parseSessEvs r with
+        | some q, some k, some es => some (.setInput ⟨q, k⟩ (b = "1") :: es)
+        | _, _, _ => none
+      | _ => none
+    else none
+
+def handleSess (args : List String) : String :=
+  match args with
+  | ufs :: r0 :: evs =>
+    let u : Option (Option Rat) := if ufs = "none" then some none else (parseRat? ufs).map some
+    match u, parseRat? r0, parseSessEvs evs with
+    | some u, some r0, some es =>
+      if Nitime.Generated.SetInput.sparse.contains .unknown then "unsupported" else
+      let out := CohSession.run (fun fs => [fs]) Nitime.Generated.SetInput.sparse (CohSession.init ⟨r0, 0⟩ u) es
+      if out.isEmpty then "none" else " ".intercalate (out.map fun p => toString p.2 ++ "@" ++ showRat (p.1.headD 0))
+    | _, _, _ => "bad-args"
+  | _ => "bad-args"
+
 def handle (args : List String) : String :=
   match args with
+  | "outhist" :: rest => handleOutHist rest
+  | "sess" :: rest => handleSess rest
   | "grid" :: rest => (handleGrid rest).getD "bad-op"
   | "cache" :: rest => (handleCache rest).getD "bad-op"
   | "seed" :: rest => (handleSeed rest).getD "bad-op"
